@@ -291,6 +291,10 @@ def compute_monotonicity(df_samples, sig):
     >>> monotonicity = compute_monotonicity(df_samples, sig)
     """
 
+    # Integer-typed signals (e.g. raw A/D counts) are analyzed as floats: integer arithmetic wraps around
+    if np.issubdtype(np.asarray(sig).dtype, np.integer):
+        sig = np.asarray(sig, dtype=float)
+
     # Compute monotonicity
     cycles = len(df_samples)
     monotonicity = np.zeros(cycles)
